@@ -20,9 +20,19 @@ Record client := mkClient {
 (* what a request presents: Basic header, client_id / client_secret form fields ("" = absent) *)
 Record creds := mkCreds { cr_basic : option (string * string); cr_id : string; cr_secret : string }.
 
+(* how the provider derives its issuer (op.StaticIssuer / op.IssuerFromHost /
+   op.IssuerFromForwardedOrHost); the issuer is origin (scheme://host) ++ path *)
+Inductive issuer_mode :=
+| IStatic (origin ipath : string)
+| IHost (insecure : bool) (ipath : string)        (* origin from the request's Host *)
+| IForwarded (insecure : bool) (ipath : string).  (* from Forwarded: host=..., else Host *)
+
+(* DeviceAuthorizationConfig.UserFormPath / the deprecated absolute UserFormURL *)
+Inductive form := FormPath (p : string) | FormURL (u : string).
+
 Record cfg := mkCfg {
-  g_origin : string;     (* issuer scheme://host *)
-  g_path : string;       (* UserFormPath *)
+  g_issuer : issuer_mode;
+  g_form : form;
   g_charset : list string; g_amount : nat; g_dash : nat;
   g_interval : Z }.      (* PollInterval, seconds *)
 
@@ -38,8 +48,10 @@ Inductive fault := FNone | FDeadline | FError.
 
 Inductive op :=
 | OpAuthz (r : router) (cr : creds) (scopes : list string) (now : Z) (life : Z) (rnd : list nat)
+          (host : string) (fwd : option string)
     (* POST /device_authorization at time [now] (ns) on a provider configured
-       with Lifetime = [life] s, crypto/rand.Reader pinned to [rnd] *)
+       with Lifetime = [life] s, crypto/rand.Reader pinned to [rnd]; the request
+       arrives under Host [host] with an optional Forwarded host parameter *)
 | OpApprove (uc sub : string)       (* the user approves the user code as subject *)
 | OpDeny (uc : string)
 | OpPoll (r : router) (cr : creds) (dc : string) (now : Z) (f : fault).
@@ -128,10 +140,33 @@ Definition prov_authenticated (c : client) (authd : bool) : bool :=
 (* ---- createDeviceAuthorization ----------------------------------------- *)
 Definition ns_of_s (s : Z) : Z := (s * 1000000000)%Z.
 
-Definition verification_uri (g : cfg) : string := (g_origin g ++ g_path g)%string.
+(* the issuer of ONE request (IssuerFromContext): never a property of the provider alone *)
+Definition scheme_of (insecure : bool) : string := if insecure then "http" else "https".
+
+Definition request_origin (g : cfg) (host : string) (fwd : option string) : string :=
+  match g_issuer g with
+  | IStatic o _ => o
+  | IHost ins _ => (scheme_of ins ++ "://" ++ host)%string
+  | IForwarded ins _ =>
+      (scheme_of ins ++ "://" ++ match fwd with Some h => h | None => host end)%string
+  end.
+
+Definition issuer_path (g : cfg) : string :=
+  match g_issuer g with IStatic _ p | IHost _ p | IForwarded _ p => p end.
+
+Definition request_issuer (g : cfg) (host : string) (fwd : option string) : string :=
+  (request_origin g host fwd ++ issuer_path g)%string.
+
+(* url.Parse(IssuerFromContext(ctx)) with .Path = UserFormPath: the issuer's path is
+   replaced; or the configured absolute URL *)
+Definition verification_uri (g : cfg) (host : string) (fwd : option string) : string :=
+  match g_form g with
+  | FormURL u => u
+  | FormPath p => (request_origin g host fwd ++ p)%string
+  end.
 
 Definition create (g : cfg) (st : store) (cid : string) (scopes : list string)
-    (now life : Z) (rnd : list nat) : store * resp :=
+    (now life : Z) (rnd : list nat) (host : string) (fwd : option string) : store * resp :=
   match new_device_code rnd with
   | None => (st, RPanic)
   | Some (dc, rest) =>
@@ -141,8 +176,8 @@ Definition create (g : cfg) (st : store) (cid : string) (scopes : list string)
           match store_dev st (mkDev dc uc cid scopes (now + ns_of_s life)%Z false false "") with
           | None => (st, RErr "server_error")
           | Some st' =>
-              (st', RDevice dc uc (verification_uri g)
-                      (verification_uri g ++ "?user_code=" ++ uc)%string life (g_interval g))
+              (st', RDevice dc uc (verification_uri g host fwd)
+                      (verification_uri g host fwd ++ "?user_code=" ++ uc)%string life (g_interval g))
           end
       end
   end.
@@ -171,7 +206,8 @@ Definition tokens_for (c : client) (d : dev) : resp :=
 
 (* ---- the two routers ---------------------------------------------------- *)
 Definition authz (g : cfg) (cl : list client) (st : store) (r : router) (cr : creds)
-    (scopes : list string) (now life : Z) (rnd : list nat) : store * resp :=
+    (scopes : list string) (now life : Z) (rnd : list nat) (host : string) (fwd : option string)
+    : store * resp :=
   match r with
   | RProvider =>                       (* ParseDeviceCodeRequest *)
       match prov_client cl cr with
@@ -180,7 +216,7 @@ Definition authz (g : cfg) (cl : list client) (st : store) (r : router) (cr : cr
           match find_client cl id with
           | None => (st, RErr "server_error")
           | Some c =>
-              if c_dev c then create g st id scopes now life rnd
+              if c_dev c then create g st id scopes now life rnd host fwd
               else (st, RErr "unauthorized_client")
           end
       end
@@ -188,7 +224,7 @@ Definition authz (g : cfg) (cl : list client) (st : store) (r : router) (cr : cr
       match legacy_client cl cr with
       | inr e => (st, RErr e)
       | inl c =>
-          if c_dev c then create g st (c_id c) scopes now life rnd
+          if c_dev c then create g st (c_id c) scopes now life rnd host fwd
           else (st, RErr "unauthorized_client")
       end
   end.
@@ -224,7 +260,7 @@ Definition poll (cl : list client) (st : store) (r : router) (cr : creds) (dc : 
 
 Definition step (g : cfg) (cl : list client) (st : store) (o : op) : store * resp :=
   match o with
-  | OpAuthz r cr scopes now life rnd => authz g cl st r cr scopes now life rnd
+  | OpAuthz r cr scopes now life rnd host fwd => authz g cl st r cr scopes now life rnd host fwd
   | OpApprove uc sub => (on_user uc (approve_dev sub) st, RAck (has_user st uc))
   | OpDeny uc => (on_user uc deny_dev st, RAck (has_user st uc))
   | OpPoll r cr dc now f => (st, poll cl st r cr dc now f)
